@@ -314,6 +314,8 @@ Definition preadlink (fuel : nat) (h : phandle) (base : pbase) (subpath : bytes)
 (* ProcfsHandle::open_follow (procfs.rs:337-406) *)
 Definition popen_follow (fuel : nat) (h : phandle) (base : pbase) (subpath : bytes) (oflags : N)
   : prog (result Z ekind) :=
+  if intersects oflags OPEN_FOLLOW_REFUSED || has_nz oflags OPEN_FOLLOW_REFUSED_CONTAINS
+  then Ret (Err InvalidArgument) else
   let '(subpath, trailing_slash) := path_strip_trailing_slash subpath in
   let oflags := if trailing_slash then N.lor oflags OPEN_FOLLOW_SLASH_FLAG else oflags in
   rl <- preadlink fuel h base subpath ;;
